@@ -40,6 +40,10 @@ class StrictBytesIO(io.BytesIO):
         return b
 
 
+# runs of this module take 1-3 s; a reader that lost byte alignment can loop over a garbage length for hours
+RUN_LIMIT = 150
+
+
 def M():
     global _m
     if _m is None:
@@ -452,7 +456,8 @@ def eval_reuse(case, ctx):
                 if r.get("tags"):
                     f.write("%s\t%s\n" % (r["n"], r["tags"]["RG"]))
         gextra = ["--read_group", "file:" + tp]
-    res = pipeline.run_case(sc, ctx, extra=["--keep_tmp"] + gextra, d=d0, out_name=sc.get("out_name", "out"))
+    res = pipeline.run_case(sc, ctx, extra=["--keep_tmp"] + gextra, d=d0, out_name=sc.get("out_name", "out"),
+                            timeout=RUN_LIMIT)
     try:
         if res.code != 0:
             ctx.note("crash:" + res.crash_signature())
@@ -466,7 +471,11 @@ def eval_reuse(case, ctx):
             argv += ["--bam"] + res.paths["bams"]
         from vlib import run
         ctx.pipeline_runs += 1
-        code = run.run_fork(argv, os.path.join(res.dir, "home2"), os.path.join(res.dir, "out2.log"))
+        code = run.run_fork(argv, os.path.join(res.dir, "home2"), os.path.join(res.dir, "out2.log"),
+                            timeout=RUN_LIMIT)
+        if code == -9:
+            ctx.note("restarted_run_exceeded_%ds" % RUN_LIMIT)      # inconclusive, not a verdict
+            return
         if code != 0:
             r2 = pipeline.Result(res.dir, code, out2, res.paths, os.path.join(res.dir, "out2.log"))
             ctx.violation("C15:reuse-run-failed:" + r2.crash_signature().split("@")[0],
@@ -530,14 +539,18 @@ def eval_multi_reuse(case, ctx):
         out1 = os.path.join(d, "out1")
         ctx.pipeline_runs += 1
         if run.run_fork(common + ["--yaml", yp, "-o", out1, "--keep_tmp"], os.path.join(d, "home1"),
-                        os.path.join(d, "out1.log")) != 0:
+                        os.path.join(d, "out1.log"), timeout=RUN_LIMIT) != 0:
             ctx.note("saving_run_failed")
             return
         saves = [os.path.join(out1, n, "aux", n + ".save") for n in ("E1", "E2")]
         out2 = os.path.join(d, "out2")
         ctx.pipeline_runs += 1
         log2 = os.path.join(d, "out2.log")
-        code = run.run_fork(common + ["--read_assignments"] + saves + ["-o", out2], os.path.join(d, "home2"), log2)
+        code = run.run_fork(common + ["--read_assignments"] + saves + ["-o", out2], os.path.join(d, "home2"), log2,
+                            timeout=RUN_LIMIT)
+        if code == -9:
+            ctx.note("restarted_run_exceeded_%ds" % RUN_LIMIT)
+            return
         if code != 0:
             r2 = pipeline.Result(d, code, out2, paths, log2)
             ctx.violation("C15:multi-experiment-reuse-run-failed:" + r2.crash_signature().split("@")[0],
